@@ -287,8 +287,14 @@ class C08(World):
             if r and args.random() < swarm["p_populate"]:
                 # between two insertions the owner of the table fills a curve column (as the pipeline stages do) or works on a copy
                 x_ = args.random()
-                if x_ < 0.2:
+                if x_ < 0.12:
                     steps.append(dict(op="copy"))
+                elif x_ < 0.27:
+                    # the owner moves the whole temperature scale in place (real <-> shifted temperatures, degC <-> K), half of the
+                    # time right after a request that adds nothing (so that nothing has replaced the table's buffer in between)
+                    if args.random() < 0.5:
+                        steps.append(dict(op="insert", form=args.choice(["list", "ndarray", "scalar", "own_column"]), refs=[["row", args.randrange(64), 0.0]]))
+                    steps.append(dict(op="retemp", d=float(args.choice([5.0, -10.0, 2.5, 273.15, -0.5, 37.0])), via=args.choice(["col", "icol", "update", "data", "loc"])))
                 elif x_ < 0.4:
                     steps.append(dict(op="shift", col=args.randrange(64), dh=float(args.choice([100.0, -50.0, 0.125]))))
                 elif x_ < 0.55:
@@ -443,6 +449,31 @@ class C08(World):
                 original["cols"][name] = (Tr_, vals_ + st["dh"])
                 probe("cascade_shifted_between_insertions")
                 log.append([op, name, st["dh"]])
+                continue
+            if op == "retemp":
+                ci_ = pt.col_index
+                d_ = st["d"]
+                newT = T + d_
+                via = st["via"]
+                if via == "col":
+                    pt.col["T"] = newT
+                elif via == "icol":
+                    pt.icol[ci_["T"]] = newT
+                elif via == "update":
+                    pt.update({"T": newT})
+                elif via == "loc":
+                    for i in range(len(newT)):
+                        pt.loc[i, "T"] = newT[i]
+                else:
+                    pt.data[:, ci_["T"]] = newT
+                now_ = pt.data[:, ci_["T"]].copy()
+                # the table now is this table: every curve is re-based on the temperatures actually stored (each insertion so far
+                # was judged when it happened, so the current rows are the reference curve sampled at the current temperatures)
+                for name_ in list(original["cols"]):
+                    if name_ in ci_:
+                        original["cols"][name_] = (now_.copy(), pt.data[:, ci_[name_]].copy())
+                probe("temperature_scale_moved_in_place_between_insertions")
+                log.append([op, d_, via])
                 continue
             if op == "populate":
                 ci_ = pt.col_index
